@@ -81,7 +81,14 @@ claim("C15", "dominance of recorders over readers, flag-fixed reachability of ho
       "createModulePath) that the runtime re-derives. That the computed archive path equals the runtime path for every layout is string algebra "
       "and not decided.", NOTE, "DESIGN.md §3 C15")
 
-for pid in ["C02","C04","C05","C07","C09","C12","C13","C16"]:
+claim("C16", "taint/dominance of the import-path sanitiser with symbolic evaluation of the rejecting predicate on a witness set, root-prefix data flow, wake-up rule, call-graph re-entrancy of the import cache",
+      "Decides structural necessary conditions of import confinement and cycle handling: (R16a) the path text reaches importLocalFile only after "
+      "path.Clean and a dominating rejecting branch whose condition rejects every shape an escaping cleaned relative path can take (.., ../x, "
+      "../../x); (R16b) root imports read rootPath + / + … from findRootFromModule; (R16c) no lost wake-up in the import cache; (R16d) a cyclic import "
+      "re-enters getOrAdd with no owner test (genuine hang, known finding). Which other strings the sanitiser lets through (whitespace, absolute "
+      "forms), symlinks and equal values across spellings are not decided.", NOTE, "DESIGN.md §3 C16")
+
+for pid in ["C02","C04","C05","C07","C09","C12","C13"]:
     na(pid, "check under construction in this session (see DESIGN.md §3); not claimed until its rules are registered")
 na("C14", "agreement of a hand-written array matcher with strings/bytes over all sequences is a relation between runtime values computed by "
           "loops with data-dependent indices; no sound structural clause with teeth exists (DESIGN.md §3 C14)")
